@@ -166,6 +166,9 @@ pub mod sim {
         FaultBefore,
         /// the call is executed, but its acknowledgement is lost: the caller sees an error
         FaultAfter,
+        /// the call is executed, but its caller never learns anything: it stays suspended until
+        /// the simulator drops it (the client disconnected while the call was on the wire)
+        CancelAfter,
     }
 
     #[derive(Debug, Clone)]
@@ -378,6 +381,11 @@ impl Drop for GateFut {
             let _ = sim::GATES.try_with(|g| g.borrow_mut().retain(|e| e.info.id != id));
         }
     }
+}
+
+/// The caller of a call released with `CancelAfter` is never resumed.
+async fn hang<T>() -> T {
+    std::future::pending::<T>().await
 }
 
 fn gate(epoch: u64, op: &'static str, coll: &str, filter: &Document) -> GateFut {
@@ -613,6 +621,9 @@ impl<T> Collection<T> {
         if o == Outcome::FaultAfter {
             return Err(fault());
         }
+        if o == Outcome::CancelAfter {
+            return hang().await;
+        }
         Ok(results::DeleteResult { deleted_count: n })
     }
 
@@ -669,6 +680,9 @@ impl<T> Collection<T> {
         if o == Outcome::FaultAfter {
             return Err(fault());
         }
+        if o == Outcome::CancelAfter {
+            return hang().await;
+        }
         Ok(results::UpdateResult { matched_count: matched, modified_count: modified, upserted_id: None })
     }
 }
@@ -703,6 +717,9 @@ impl<T: Serialize> Collection<T> {
         log_event(ev);
         if o == Outcome::FaultAfter {
             return Err(fault());
+        }
+        if o == Outcome::CancelAfter {
+            return hang().await;
         }
         Ok(results::InsertOneResult { inserted_id: Bson::Int64(id as i64) })
     }
@@ -743,6 +760,9 @@ impl<T: Serialize> Collection<T> {
             if o == Outcome::FaultAfter {
                 return Err(fault());
             }
+            if o == Outcome::CancelAfter {
+                return hang().await;
+            }
             return Ok(results::UpdateResult { matched_count: 0, modified_count: 0, upserted_id: Some(Bson::Int64(id as i64)) });
         }
         let Some(pos) = pos else {
@@ -750,6 +770,9 @@ impl<T: Serialize> Collection<T> {
             log_event(self.event(g, &actor, "replace_one", &query, if o == Outcome::Ok { "ok" } else { "fault-after" }));
             if o == Outcome::FaultAfter {
                 return Err(fault());
+            }
+            if o == Outcome::CancelAfter {
+                return hang().await;
             }
             return Ok(results::UpdateResult { matched_count: 0, modified_count: 0, upserted_id: None });
         };
@@ -772,6 +795,9 @@ impl<T: Serialize> Collection<T> {
         if o == Outcome::FaultAfter {
             return Err(fault());
         }
+        if o == Outcome::CancelAfter {
+            return hang().await;
+        }
         Ok(results::UpdateResult { matched_count: 1, modified_count: modified, upserted_id: None })
     }
 }
@@ -784,6 +810,9 @@ impl<T: DeserializeOwned> Collection<T> {
     ) -> error::Result<Option<T>> {
         let filter = filter.into().unwrap_or_default();
         let (g, o, actor) = gate(self.client.epoch, "find_one", &self.name, &filter).await;
+        if o == Outcome::CancelAfter {
+            return hang().await;
+        }
         if o != Outcome::Ok {
             log_event(self.event(g, &actor, "find_one", &filter, "fault-before"));
             return Err(fault());
@@ -813,6 +842,9 @@ impl<T: DeserializeOwned> Collection<T> {
     ) -> error::Result<Cursor<T>> {
         let filter = filter.into().unwrap_or_default();
         let (g, o, actor) = gate(self.client.epoch, "find", &self.name, &filter).await;
+        if o == Outcome::CancelAfter {
+            return hang().await;
+        }
         if o != Outcome::Ok {
             log_event(self.event(g, &actor, "find", &filter, "fault-before"));
             return Err(fault());
